@@ -18,21 +18,18 @@ class C01Facade(Harness):
 
     def instances(self, tier):
         if tier == "quick":
-            grid = [(n, m) for n in (0, 1, 2) for m in (1, 2)] + [(3, 1), (3, 2)]
-            specs = ("edges", "pairs")
-            dtypes = (None,)
+            combos = [((n, m), spec, wk, keep, None) for (n, m) in [(n, m) for n in (0, 1, 2) for m in (1, 2)] + [(3, 1), (3, 2)]
+                      for spec in ("edges", "pairs") for wk in ("none", "int", "real") for keep in (True, False) if not (not keep and spec == "pairs")]
         else:
-            grid = [(n, m) for n in (0, 1, 2, 3) for m in (1, 2, 3)] + [(4, 1), (4, 2)]
-            specs = ("edges", "pairs", "static")
-            dtypes = (None, "float64", "int64", "float32")
-        for (n, m), spec, wk, keep in itertools.product(grid, specs, ("none", "int", "real"), (True, False)):
-            for dt in dtypes:
-                if tier == "quick" and not keep and spec == "pairs":
-                    continue
-                if n >= 3 and wk == "real" and m >= 3:
-                    continue
-                yield (f"h1-N{n}-M{m}-{spec}-w{wk}-k{int(keep)}-d{dt}",
-                       dict(N=n, M=m, spec=spec, weights=wk, keep_missed=keep, dtype=dt, nan=(n <= 2)))
+            base = [(n, m) for n in (0, 1, 2, 3) for m in (1, 2, 3)]
+            combos = [(g, spec, wk, keep, None) for g in base for spec in ("edges", "pairs", "static") for wk in ("none", "int", "real") for keep in (True, False)
+                      if not (g[0] >= 3 and g[1] >= 3 and (wk == "real" or spec == "static"))]
+            combos += [(g, spec, wk, True, None) for g in ((4, 1), (4, 2)) for spec in ("edges", "pairs") for wk in ("none", "int")]
+            combos += [(g, spec, wk, keep, dt) for g in ((1, 1), (2, 2)) for spec in ("edges", "pairs") for wk in ("none", "int", "real") for keep in (True, False)
+                       for dt in ("float64", "int64", "float32")]
+        for (n, m), spec, wk, keep, dt in combos:
+            yield (f"h1-N{n}-M{m}-{spec}-w{wk}-k{int(keep)}-d{dt}",
+                   dict(N=n, M=m, spec=spec, weights=wk, keep_missed=keep, dtype=dt, nan=(n <= 2)))
         # multi-dimensional data in non-C memory layouts (transposed / strided / reversed views) with element-wise weights
         for layout in ("transposed", "strided", "reversed"):
             for dropna in (True, False):
